@@ -8,4 +8,5 @@ CONSTANTS BlockLists = {"b1", "b2"}
           SchedBeh <- BehTiny
           FileBeh <- BehTiny
           SetURLBeh <- BehNone
+          Toggle = FALSE
           SetURLAsIs = FALSE
